@@ -368,8 +368,9 @@ def monitor(case, d):
             if i is not None: add("combined-vs-separate(input)", "weightedDerivatives input derivative[%d] = %r, weightedInputDerivative gives %r" % (i, at(d["wdi"], i), at(d["wid"], i)))
         # ---- finite differences
         s0 = d["s0"][0]
-        for kind, g, f in (("parameter", d.get("wpd") if hp else None, d.get("fp")), ("input", d.get("wid") if hi else None, d.get("fi"))):
-            if g is None or f is None or len(f) != 4 * len(g): continue
+        osc = max([1.0] + [abs(x) for x in ref if x == x and not math.isinf(x)])
+        for kind, g, f, kk in (("parameter", d.get("wpd") if hp else None, d.get("fp"), d.get("kp")), ("input", d.get("wid") if hi else None, d.get("fi"), d.get("ki"))):
+            if g is None or f is None or len(f) != 4 * len(g) or kk is None or len(kk) != 2 * len(g): continue
             sc = max([1.0, abs(s0)] + [abs(x) for x in g if x == x])
             worst = None; kinks = 0
             for i in range(len(g)):
@@ -380,7 +381,9 @@ def monitor(case, d):
                 # kink of a rectifier / max / tile border within 2h (forward != backward quotient) or of a fast sigmoid at 0 (C1 only: the
                 # central quotients for h and 2h differ by O(h) instead of O(h^2)): excluded by the property's side condition, counted
                 # (third test: a slope jump J at the point makes the second differences for h and 2h disagree by J*h/2; they agree to O(h^4) otherwise)
-                if abs(fwd - bwd) > 1e-3 * sc or abs(cen - cen2) > 1e-7 * sc or abs((p - 2 * s0 + m) - (p2 - 2 * s0 + m2) / 4) > 1e-12 * sc: kinks += 1; continue
+                # the same two tests on every single output entry (harness: k1, k2), since kinks of two entries can cancel in the weighted sum
+                if abs(fwd - bwd) > 1e-3 * sc or abs(cen - cen2) > 1e-7 * sc or abs((p - 2 * s0 + m) - (p2 - 2 * s0 + m2) / 4) > 1e-12 * sc \
+                   or kk[2 * i] > 1e-12 * osc or kk[2 * i + 1] > 1e-7 * osc: kinks += 1; continue
                 err = abs(g[i] - cen)
                 if (err > 0 if an.exact else err > FD_TOL * sc) and (worst is None or err > worst[3]): worst = (i, g[i], cen, err)
             d["kinks"] = d.get("kinks", 0) + kinks; d["fd_checked"] = d.get("fd_checked", 0) + len(g) - kinks
@@ -415,7 +418,7 @@ def main():
     if ck.replay:
         cases = [Case.parse(l) for l in open(ck.replay).read().split("\n") if l.strip() and not l.startswith("#")]
     else:
-        cases = gen_cases(rng, 2500 if not big else 30000)
+        cases = gen_cases(rng, 2500 if not big else 120000)
         cdir = os.path.join(ROOT, "corpus", PID)
         if os.path.isdir(cdir):
             for f in sorted(os.listdir(cdir)):
